@@ -1,5 +1,5 @@
 import Mdns.Lemmas.Sched
-import Mdns.Lemmas.ClientStop
+import Mdns.Lemmas.ClientStale
 import Mdns.Props.C03
 /-
   C13  Stopping a search really stops it; channel protocol.
@@ -511,6 +511,252 @@ theorem delays_ok_run (t0 : Nat) (intfs : List Intf) (h : List (Nat × List Pack
       exact ih _ _ (ok_iter hist s now pkts cmds hc).1 (delayOk_iter hist s now pkts cmds hc hD)
   exact this h [] _ (cacheProv_empty []) (fun _ hr => by cases hr)
 
+/-! #### the life of a channel over a whole history -/
+
+theorem running_after_browse (ty : BList) (ch : Nat) (co : Bool) (s : State) (now : Nat) :
+    Running ty ch (execCommand s now (.browse ty ch co)).1 := by
+  unfold Running
+  have hq : (execCommand s now (.browse ty ch co)).1.queriers = (ty, ch) :: s.queriers.filter (fun q => q.1 != ty) := by
+    simp only [execCommand, execBrowse, Bool.false_eq_true, if_false]
+    split <;> simp only [addRerun_queriers, queryCacheForService, addPendings_queriers, markResolved_queriers]
+  rw [hq]
+  simp
+
+theorem searching_after_resolve (host : BList) (ch : Nat) (t : Option Nat) (s : State) (now : Nat) :
+    Searching (lower host) ch (t.map (now + ·)) (execCommand s now (.resolveHost host ch t)).1 := by
+  unfold Searching
+  show (execResolveHost s now false host 1 ch t).1.resolvers.find? _ = _
+  rw [execResolveHost_new_resolvers]
+  simp
+
+theorem running_run (ty : BList) (ch : Nat) : ∀ (h : List (Nat × List Packet × List Command)) (s : State),
+    (∀ it ∈ h, it.2.2.all (fun c => !touchesType ty c) = true) → Running ty ch s → Running ty ch (run s h).1
+  | [], _, _, hr => hr
+  | (now, pkts, cmds) :: rest, s, hc, hr => by
+    simp only [run]
+    exact running_run ty ch rest _ (fun it hit => hc it (List.mem_cons_of_mem _ hit))
+      (running_iter ty ch s now pkts cmds (hc _ List.mem_cons_self) hr)
+
+theorem onlyBrowse_run (ch : Nat) (ty : BList) : ∀ (h : List (Nat × List Packet × List Command)) (s : State),
+    OnlyBrowse ch ty s → DelaysOk s → (∀ it ∈ h, ∀ c ∈ it.2.2, cchan c ≠ some ch) →
+    OnlyBrowse ch ty (run s h).1 ∧ DelaysOk (run s h).1
+  | [], _, ho, hD, _ => ⟨ho, hD⟩
+  | (now, pkts, cmds) :: rest, s, ho, hD, hc => by
+    obtain ⟨h1, h2⟩ := onlyBrowse_iter ch ty s now pkts cmds ho hD (hc _ List.mem_cons_self)
+    simp only [run]
+    exact onlyBrowse_run ch ty rest _ h1 h2 (fun it hit => hc it (List.mem_cons_of_mem _ hit))
+
+theorem searching_run (key : BList) (ch : Nat) (dl : Option Nat) : ∀ (h : List (Nat × List Packet × List Command)) (s : State),
+    (∀ it ∈ h, it.2.2.all (fun c => !touchesHost key c) = true ∧ ∀ t, dl = some t → it.1 < t) →
+    Searching key ch dl s → Searching key ch dl (run s h).1
+  | [], _, _, hr => hr
+  | (now, pkts, cmds) :: rest, s, hc, hr => by
+    simp only [run]
+    exact searching_run key ch dl rest _ (fun it hit => hc it (List.mem_cons_of_mem _ hit))
+      (searching_iter key ch dl s now pkts cmds (hc _ List.mem_cons_self).1 (hc _ List.mem_cons_self).2 hr)
+
+theorem onlyHost_run (ch : Nat) (key : BList) : ∀ (h : List (Nat × List Packet × List Command)) (s : State),
+    OnlyHost ch key s → DelaysOk s → (∀ it ∈ h, ∀ c ∈ it.2.2, cchan c ≠ some ch) →
+    OnlyHost ch key (run s h).1 ∧ DelaysOk (run s h).1
+  | [], _, ho, hD, _ => ⟨ho, hD⟩
+  | (now, pkts, cmds) :: rest, s, ho, hD, hc => by
+    obtain ⟨h1, h2⟩ := onlyHost_iter ch key s now pkts cmds ho hD (hc _ List.mem_cons_self)
+    simp only [run]
+    exact onlyHost_run ch key rest _ h1 h2 (fun it hit => hc it (List.mem_cons_of_mem _ hit))
+
+/-- **The life of a browse channel, over a whole history from the start of the daemon.**
+    `h1`: any history that never mentions `ch`.  Then an iteration whose commands are
+    `pre1 ++ browse(ty) on ch :: post1`.  `h2`: any history.  Then an iteration whose commands are
+    `pre2 ++ stop_browse(ty) :: post2`.  `h3`: any history.  No other command mentions `ch`, and
+    between the browse and the stop no command browses or stops `ty` again (the browse is the
+    one that is stopped).  Then, on channel `ch`:
+    1. nothing during `h1`;
+    2. in the iteration of the browse the first event is `SearchStarted`;
+    3. in the iteration of the stop, `SearchStopped(ty)` is emitted and nothing after it;
+    4. nothing during `h3` - however long, whatever arrives. -/
+theorem browse_channel_lifecycle (t0 : Nat) (intfs : List Intf) (ch : Nat) (ty : BList) (co : Bool)
+    (h1 h2 h3 : List (Nat × List Packet × List Command)) (t1 t2 : Nat) (p1 p2 : List Packet)
+    (pre1 post1 pre2 post2 : List Command)
+    (hc1 : ∀ it ∈ h1, ∀ c ∈ it.2.2, cchan c ≠ some ch) (hpre1 : ∀ c ∈ pre1, cchan c ≠ some ch)
+    (hpost1 : ∀ c ∈ post1, cchan c ≠ some ch) (hc2 : ∀ it ∈ h2, ∀ c ∈ it.2.2, cchan c ≠ some ch)
+    (hpre2 : ∀ c ∈ pre2, cchan c ≠ some ch) (hpost2 : ∀ c ∈ post2, cchan c ≠ some ch)
+    (hc3 : ∀ it ∈ h3, ∀ c ∈ it.2.2, cchan c ≠ some ch)
+    (hk1 : post1.all (fun c => !touchesType ty c) = true)
+    (hk2 : ∀ it ∈ h2, it.2.2.all (fun c => !touchesType ty c) = true)
+    (hk3 : pre2.all (fun c => !touchesType ty c) = true) :
+    let s1 := (run (init t0 intfs) h1).1
+    let s2 := (iter s1 t1 p1 (pre1 ++ .browse ty ch co :: post1)).1
+    let s3 := (run s2 h2).1
+    let s4 := (iter s3 t2 p2 (pre2 ++ .stopBrowse ty :: post2)).1
+    (∀ t e, (t, Out.event ch e) ∉ (run (init t0 intfs) h1).2) ∧
+    (∃ a b, (iter s1 t1 p1 (pre1 ++ .browse ty ch co :: post1)).2 = a ++ Out.event ch .started :: b ∧
+      ∀ e, Out.event ch e ∉ a) ∧
+    (∃ a b, (iter s3 t2 p2 (pre2 ++ .stopBrowse ty :: post2)).2 = a ++ Out.event ch (.stopped ty) :: b ∧
+      ∀ e, Out.event ch e ∉ b) ∧
+    (∀ t e, (t, Out.event ch e) ∉ (run s4 h3).2) := by
+  intro s1 s2 s3 s4
+  obtain ⟨hf0, hD0⟩ := chanFree_init ch t0 intfs
+  obtain ⟨q1, hf1, hD1⟩ := silent_for_ever ch h1 _ hf0 hD0 hc1
+  have hstart := first_event_started_browse ch s1 t1 p1 pre1 ty co post1 hf1 hD1 hpre1
+  obtain ⟨ho2, hD2⟩ := browse_owns_channel ch s1 t1 p1 pre1 ty co post1 hf1 hD1 hpre1 hpost1
+  have hr2 : Running ty ch s2 := by
+    show Running ty ch (iter s1 t1 p1 (pre1 ++ .browse ty ch co :: post1)).1
+    rw [(iter_split s1 t1 p1 pre1 (.browse ty ch co) post1).1]
+    exact running_tail ty ch _ t1 post1 hk1 (running_after_browse ty ch co _ t1)
+  obtain ⟨ho3, hD3⟩ := onlyBrowse_run ch ty h2 s2 ho2 hD2 hc2
+  have hr3 : Running ty ch s3 := running_run ty ch h2 s2 hk2 hr2
+  have hq : (runCommands (preCommands s3 t2 p2) t2 pre2).1.queriers.find? (·.1 == ty) = some (ty, ch) := by
+    apply running_runCommands ty ch t2 pre2 _ hk3
+    unfold Running
+    rw [preCommands_queriers]
+    exact hr3
+  obtain ⟨a, b, hab, hb, hf4, hD4⟩ := stop_browse_final ch ty s3 t2 p2 pre2 post2 ho3 hD3 hpre2 hpost2 hq
+  exact ⟨q1, hstart, ⟨a, b, hab, hb⟩, (silent_for_ever ch h3 s4 hf4 hD4 hc3).1⟩
+
+/-- **The life of a hostname-search channel that is stopped by `stop_resolve_hostname`**, over a
+    whole history: as `browse_channel_lifecycle`, with the host name given in any letter case at
+    the start (`host1`) and at the stop (`host2`, `lower host2 = lower host1`), and no time-out
+    reached before the stop. -/
+theorem resolve_channel_lifecycle (t0 : Nat) (intfs : List Intf) (ch : Nat) (host1 host2 : BList) (to : Option Nat)
+    (h1 h2 h3 : List (Nat × List Packet × List Command)) (t1 t2 : Nat) (p1 p2 : List Packet)
+    (pre1 post1 pre2 post2 : List Command) (hcase : lower host2 = lower host1)
+    (hc1 : ∀ it ∈ h1, ∀ c ∈ it.2.2, cchan c ≠ some ch) (hpre1 : ∀ c ∈ pre1, cchan c ≠ some ch)
+    (hpost1 : ∀ c ∈ post1, cchan c ≠ some ch) (hc2 : ∀ it ∈ h2, ∀ c ∈ it.2.2, cchan c ≠ some ch)
+    (hpre2 : ∀ c ∈ pre2, cchan c ≠ some ch) (hpost2 : ∀ c ∈ post2, cchan c ≠ some ch)
+    (hc3 : ∀ it ∈ h3, ∀ c ∈ it.2.2, cchan c ≠ some ch)
+    (hk1 : post1.all (fun c => !touchesHost (lower host1) c) = true)
+    (hk2 : ∀ it ∈ h2, it.2.2.all (fun c => !touchesHost (lower host1) c) = true ∧ ∀ t, to = some t → it.1 < t1 + t)
+    (hk3 : pre2.all (fun c => !touchesHost (lower host1) c) = true) (hdl : ∀ t, to = some t → t2 < t1 + t) :
+    let s1 := (run (init t0 intfs) h1).1
+    let s2 := (iter s1 t1 p1 (pre1 ++ .resolveHost host1 ch to :: post1)).1
+    let s3 := (run s2 h2).1
+    let s4 := (iter s3 t2 p2 (pre2 ++ .stopResolve host2 :: post2)).1
+    (∀ t e, (t, Out.event ch e) ∉ (run (init t0 intfs) h1).2) ∧
+    (∃ a b, (iter s1 t1 p1 (pre1 ++ .resolveHost host1 ch to :: post1)).2 = a ++ Out.event ch .hstarted :: b ∧
+      ∀ e, Out.event ch e ∉ a) ∧
+    (∃ a b, (iter s3 t2 p2 (pre2 ++ .stopResolve host2 :: post2)).2 =
+        a ++ Out.event ch (.hstopped (lower host1)) :: b ∧ ∀ e, Out.event ch e ∉ b) ∧
+    (∀ t e, (t, Out.event ch e) ∉ (run s4 h3).2) := by
+  intro s1 s2 s3 s4
+  obtain ⟨hf0, hD0⟩ := chanFree_init ch t0 intfs
+  obtain ⟨q1, hf1, hD1⟩ := silent_for_ever ch h1 _ hf0 hD0 hc1
+  have hstart := first_event_started_resolve ch s1 t1 p1 pre1 host1 to post1 hf1 hD1 hpre1
+  obtain ⟨ho2, hD2⟩ := resolve_owns_channel ch s1 t1 p1 pre1 host1 to post1 hf1 hD1 hpre1 hpost1
+  have hdl' : ∀ (now : Nat), (∀ t, to = some t → now < t1 + t) → ∀ t, to.map (t1 + ·) = some t → now < t := by
+    intro now h t ht
+    cases to with
+    | none => simp at ht
+    | some t' =>
+      simp only [Option.map_some, Option.some.injEq] at ht
+      exact ht ▸ h t' rfl
+  have hr2 : Searching (lower host1) ch (to.map (t1 + ·)) s2 := by
+    show Searching _ _ _ (iter s1 t1 p1 (pre1 ++ .resolveHost host1 ch to :: post1)).1
+    rw [(iter_split s1 t1 p1 pre1 (.resolveHost host1 ch to) post1).1]
+    exact searching_tail _ ch _ _ t1 post1 hk1 (searching_after_resolve host1 ch to _ t1)
+  obtain ⟨ho3, hD3⟩ := onlyHost_run ch (lower host1) h2 s2 ho2 hD2 hc2
+  have hr3 : Searching (lower host1) ch (to.map (t1 + ·)) s3 :=
+    searching_run _ ch _ h2 s2 (fun it hit => ⟨(hk2 it hit).1, hdl' it.1 (hk2 it hit).2⟩) hr2
+  have hq : (runCommands (preCommands s3 t2 p2) t2 pre2).1.resolvers.find? (·.1 == lower host2) =
+      some (lower host2, ch, to.map (t1 + ·)) := by
+    rw [hcase]
+    exact searching_runCommands _ ch _ t2 pre2 _ hk3 (searching_preCommands _ ch _ s3 t2 p2 (hdl' t2 hdl) hr3)
+  obtain ⟨a, b, hab, hb, hf4, hD4⟩ := stop_resolve_final ch host2 _ s3 t2 p2 pre2 post2 (hcase ▸ ho3) hD3 hpre2 hpost2 hq
+  rw [hcase] at hab
+  exact ⟨q1, hstart, ⟨a, b, hab, hb⟩, (silent_for_ever ch h3 s4 hf4 hD4 hc3).1⟩
+
+/-! #### the time-out case -/
+
+/-- **A stale channel stays silent for ever**: after the time-out of a hostname search (see
+    `timeout_ends_for_good`) the only thing that may still refer to `ch` is the queued
+    retransmission of the ended search; it is inert (it does nothing while no search for the
+    name is open, and a new search for the name - in any letter case, on any channel - purges
+    it).  No later iteration emits anything on `ch`, whatever arrives and whatever other searches
+    do, until a command gives `ch` to a new search. -/
+theorem stale_silent_for_ever (ch : Nat) (key : BList) : ∀ (h : List (Nat × List Packet × List Command)) (s : State),
+    Stale ch key s → (∀ it ∈ h, ∀ c ∈ it.2.2, cchan c ≠ some ch) →
+    (∀ t e, (t, Out.event ch e) ∉ (run s h).2) ∧ Stale ch key (run s h).1
+  | [], s, hs, _ => ⟨fun _ _ hm => (by cases hm), hs⟩
+  | (now, pkts, cmds) :: rest, s, hs, hc => by
+    obtain ⟨h1, h2⟩ := stale_iter ch key s now pkts cmds hs (hc _ List.mem_cons_self)
+    obtain ⟨h3, h4⟩ := stale_silent_for_ever ch key rest _ h2 (fun it hit => hc it (List.mem_cons_of_mem _ hit))
+    simp only [run]
+    refine ⟨?_, h4⟩
+    intro t e hm
+    rcases List.mem_append.mp hm with hm | hm
+    · obtain ⟨o, ho, he⟩ := List.mem_map.mp hm
+      cases he
+      exact h1 e ho
+    · exact h3 t e hm
+
+/-- **The time-out ends the search for good (the iteration of the time-out).**  The hostname
+    search for `key` is the only user of `ch` and is open with deadline `dl`; an iteration runs
+    at `now ≥ dl` (its commands do not mention `ch`).  It emits `SearchTimeout` immediately
+    followed by `SearchStopped` on `ch` and nothing on `ch` after that; afterwards the channel is
+    stale (`stale_silent_for_ever`). -/
+theorem timeout_ends_for_good (ch : Nat) (key : BList) (dl : Nat) (s : State) (now : Nat) (pkts : List Packet)
+    (cmds : List Command) (ho : OnlyHost ch key s) (hD : DelaysOk s) (hs : Searching key ch (some dl) s)
+    (hn : ResolverKeysNodup s) (hdue : dl ≤ now) (hc : ∀ c ∈ cmds, cchan c ≠ some ch) :
+    ∃ a b, (iter s now pkts cmds).2 = a ++ Out.event ch (.htimeout key) :: Out.event ch (.hstopped key) :: b ∧
+      (∀ e, Out.event ch e ∉ b) ∧ Stale ch key (iter s now pkts cmds).1 :=
+  timeout_final ch key dl s now pkts cmds ho hD hs hn hdue hc
+
+theorem resolverKeys_run : ∀ (h : List (Nat × List Packet × List Command)) (s : State), ResolverKeysNodup s →
+    ResolverKeysNodup (run s h).1
+  | [], _, hn => hn
+  | (now, pkts, cmds) :: rest, s, hn => by
+    simp only [run]
+    exact resolverKeys_run rest _ (resolverKeys_iter s now pkts cmds hn)
+
+/-- **The life of a hostname-search channel that ends by its time-out**, over a whole history
+    from the start of the daemon.  `h1`: any history that never mentions `ch`.  Then an iteration
+    at `t1` whose commands are `pre1 ++ resolve_hostname(host, timeout to) on ch :: post1`.  `h2`:
+    any history whose iterations all run before the deadline `t1 + to`.  Then an iteration at
+    `t2 ≥ t1 + to`.  `h3`: any history.  No other command mentions `ch`; before the deadline no
+    command searches or stops the name again.  Then, on channel `ch`:
+    1. nothing during `h1`;  2. in the iteration of the call the first event is `SearchStarted`;
+    3. in the first iteration at or after the deadline, `SearchTimeout` then `SearchStopped` are
+       emitted and nothing after them;  4. nothing during `h3`. -/
+theorem timeout_channel_lifecycle (t0 : Nat) (intfs : List Intf) (ch : Nat) (host : BList) (to : Nat)
+    (h1 h2 h3 : List (Nat × List Packet × List Command)) (t1 t2 : Nat) (p1 p2 : List Packet)
+    (pre1 post1 cmds2 : List Command)
+    (hc1 : ∀ it ∈ h1, ∀ c ∈ it.2.2, cchan c ≠ some ch) (hpre1 : ∀ c ∈ pre1, cchan c ≠ some ch)
+    (hpost1 : ∀ c ∈ post1, cchan c ≠ some ch) (hc2 : ∀ it ∈ h2, ∀ c ∈ it.2.2, cchan c ≠ some ch)
+    (hcmds2 : ∀ c ∈ cmds2, cchan c ≠ some ch) (hc3 : ∀ it ∈ h3, ∀ c ∈ it.2.2, cchan c ≠ some ch)
+    (hk1 : post1.all (fun c => !touchesHost (lower host) c) = true)
+    (hk2 : ∀ it ∈ h2, it.2.2.all (fun c => !touchesHost (lower host) c) = true ∧ it.1 < t1 + to)
+    (hdue : t1 + to ≤ t2) :
+    let s1 := (run (init t0 intfs) h1).1
+    let s2 := (iter s1 t1 p1 (pre1 ++ .resolveHost host ch (some to) :: post1)).1
+    let s3 := (run s2 h2).1
+    let s4 := (iter s3 t2 p2 cmds2).1
+    (∀ t e, (t, Out.event ch e) ∉ (run (init t0 intfs) h1).2) ∧
+    (∃ a b, (iter s1 t1 p1 (pre1 ++ .resolveHost host ch (some to) :: post1)).2 = a ++ Out.event ch .hstarted :: b ∧
+      ∀ e, Out.event ch e ∉ a) ∧
+    (∃ a b, (iter s3 t2 p2 cmds2).2 =
+        a ++ Out.event ch (.htimeout (lower host)) :: Out.event ch (.hstopped (lower host)) :: b ∧
+      ∀ e, Out.event ch e ∉ b) ∧
+    (∀ t e, (t, Out.event ch e) ∉ (run s4 h3).2) := by
+  intro s1 s2 s3 s4
+  obtain ⟨hf0, hD0⟩ := chanFree_init ch t0 intfs
+  obtain ⟨q1, hf1, hD1⟩ := silent_for_ever ch h1 _ hf0 hD0 hc1
+  have hstart := first_event_started_resolve ch s1 t1 p1 pre1 host (some to) post1 hf1 hD1 hpre1
+  obtain ⟨ho2, hD2⟩ := resolve_owns_channel ch s1 t1 p1 pre1 host (some to) post1 hf1 hD1 hpre1 hpost1
+  have hr2 : Searching (lower host) ch (some (t1 + to)) s2 := by
+    show Searching _ _ _ (iter s1 t1 p1 (pre1 ++ .resolveHost host ch (some to) :: post1)).1
+    rw [(iter_split s1 t1 p1 pre1 (.resolveHost host ch (some to)) post1).1]
+    exact searching_tail _ ch _ _ t1 post1 hk1 (searching_after_resolve host ch (some to) _ t1)
+  obtain ⟨ho3, hD3⟩ := onlyHost_run ch (lower host) h2 s2 ho2 hD2 hc2
+  have hr3 : Searching (lower host) ch (some (t1 + to)) s3 :=
+    searching_run _ ch _ h2 s2 (fun it hit => ⟨(hk2 it hit).1, fun t ht => by cases ht; exact (hk2 it hit).2⟩) hr2
+  have hn3 : ResolverKeysNodup s3 := by
+    apply resolverKeys_run
+    apply resolverKeys_iter
+    apply resolverKeys_run
+    show ((init t0 intfs).resolvers.map (·.1)).Nodup
+    exact List.nodup_nil
+  obtain ⟨a, b, hab, hb, hst⟩ := timeout_final ch (lower host) (t1 + to) s3 t2 p2 cmds2 ho3 hD3 hr3 hn3 hdue hcmds2
+  exact ⟨q1, hstart, ⟨a, b, hab, hb⟩, (stale_silent_for_ever ch (lower host) h3 s4 hst hc3).1⟩
+
 /-! #### non-vacuity -/
 
 /-- a browse with an announcement, its stop, and a long tail: the events on channel 1 are
@@ -545,6 +791,22 @@ example :
           | .event 7 _ => some (o.1, 0)
           | q => if asksHost [0x68, 0x2e] q then some (o.1, 9) else none : Option (Nat × Nat))) =
       [(1000, 1), (1000, 9), (2000, 1), (2000, 9), (2500, 4)] := by decide
+
+/-- a hostname search with a 3.5 s time-out that nobody answers, then the same name searched
+    again on another channel: on channel 7 `SearchStarted` (1), `SearchTimeout` (3) then
+    `SearchStopped` (4) at 4500, and nothing afterwards - the retransmission that stayed queued
+    for 8000 does nothing and the new search on channel 8 does not wake the old channel -/
+example :
+    ((run (init 1000 [C03.eth0])
+        [(1000, [], [.resolveHost [0x48, 0x2e] 7 (some 3500)]), (2000, [], []), (4000, [], []), (4500, [], []),
+         (6000, [], [.resolveHost [0x68, 0x2e] 8 none]), (7000, [], []), (8000, [], []), (100000, [], [])]).2.filterMap
+        fun o => (match o.2 with
+          | .event 7 .hstarted => some (o.1, 1)
+          | .event 7 (.htimeout _) => some (o.1, 3)
+          | .event 7 (.hstopped _) => some (o.1, 4)
+          | .event 7 _ => some (o.1, 0)
+          | _ => none : Option (Nat × Nat))) =
+      [(1000, 1), (2000, 1), (4000, 1), (4500, 3), (4500, 4)] := by decide
 
 end ClientModel
 
